@@ -14,6 +14,7 @@ and `pyEval` against the real `eval`, over tracer objects that script the enviro
 (attribute access etc.); this only makes the statements below harder (refinement) or is backed by the walker
 failing there anyway (`c01_refused_node_fails`).
 -/
+set_option linter.unusedSimpArgs false
 namespace Operon.Mito
 open R
 
